@@ -23,7 +23,7 @@ type C18Case struct {
 func c18Verdict(ch byte, rcpt string) error {
 	switch ch {
 	case 't':
-		return &smtp.SMTPError{Code: 451, EnhancedCode: smtp.EnhancedCode{4, 2, 1}, Message: "later " + rcpt}
+		return &smtp.SMTPError{Code: 451, EnhancedCode: smtp.EnhancedCode{4, 4, 316}, Message: "later " + rcpt} // (a three-digit detail, as Exchange Online sends)
 	case 'p':
 		// (the enhanced code's class need not match the reply code's: the recipient's own reply is what the backend said)
 		return &smtp.SMTPError{Code: 550, EnhancedCode: smtp.EnhancedCode{4, 2, 2}, Message: "never " + rcpt}
@@ -317,6 +317,10 @@ func evalC18Script(c C18ScriptCase) *h.Finding {
 					sb.WriteString("450 4.2.2 over quota\r\n")
 				case 'q':
 					sb.WriteString("550 4.2.2 over quota\r\n")
+				case 's':
+					// a slow queue: six minutes pass before this recipient's (positive) reply - longer than the client's
+					// CommandTimeout, well within its SubmissionTimeout
+					fmt.Fprintf(&sb, "\x00SLEEP\x00250 2.1.5 <%s> delivered at last\r\n", r)
 				case 'x':
 					// 421 as the verdict for ONE recipient: a reply like any other, the connection goes on
 					fmt.Fprintf(&sb, "421 4.3.2 <%s> shutting down this queue\r\n", r)
@@ -391,7 +395,7 @@ func evalC18Script(c C18ScriptCase) *h.Finding {
 					code int
 				}
 				var calls []got
-				codeOf := map[byte]int{'o': 0, 'p': 550, 't': 450, 'q': 550, 'x': 421}
+				codeOf := map[byte]int{'o': 0, 's': 0, 'p': 550, 't': 450, 'q': 550, 'x': 421}
 				var w interface {
 					Write([]byte) (int, error)
 					Close() error
@@ -420,7 +424,7 @@ func evalC18Script(c C18ScriptCase) *h.Finding {
 						return
 					}
 					for i, wnt := range want {
-						if calls[i].rcpt != wnt || calls[i].ok != (c.Final[ti][i] == 'o') || calls[i].code != codeOf[c.Final[ti][i]] {
+						if calls[i].rcpt != wnt || calls[i].ok != (c.Final[ti][i] == 'o' || c.Final[ti][i] == 's') || calls[i].code != codeOf[c.Final[ti][i]] {
 							f = h.F("c18s-callback-status", "%s: transaction %d: callback %d was (%s, ok=%t, code %d), want (%s, ok=%t, code %d)", desc, ti, i, calls[i].rcpt, calls[i].ok, calls[i].code, wnt, c.Final[ti][i] == 'o', codeOf[c.Final[ti][i]])
 							return
 						}
@@ -479,7 +483,7 @@ func c18ScriptCases(maxTx int) []C18ScriptCase {
 	var out []C18ScriptCase
 	// identical reply texts with different codes, and 421 as the verdict for one recipient - followed by another
 	// transaction on the connection
-	for _, fin := range []string{"tq", "qt", "tqt", "qtq", "tt", "qq", "xo", "ox", "oxo", "pxp", "xx", "x"} {
+	for _, fin := range []string{"tq", "qt", "tqt", "qtq", "tt", "qq", "xo", "ox", "oxo", "pxp", "xx", "x", "os", "so", "oso", "sp"} {
 		rc := strings.Repeat("0", len(fin))
 		for _, cb := range []bool{true, false} {
 			out = append(out, C18ScriptCase{Tx: []string{rc}, Final: []string{fin}, UseCB: cb},
